@@ -28,7 +28,8 @@ ActHi(B) == IF B.hasact = 1 THEN B.act[2] ELSE B.shape
 \* the outer walk: <<coordinate, stored index or 0>>
 Outer(B) ==
   LET e == B.a.e IN
-  CASE B.omode \in {"occ", "default"} -> LET ix == SliceIdx(e, 0, 0, 0, 0, 0) IN [k \in 1..Len(ix) |-> <<e[ix[k]][1], ix[k]>>]
+  \* (ftrace: Fiber.trace() walks the sub-tree the way a plain loop nest over the occupancy does)
+  CASE B.omode \in {"occ", "default", "ftrace"} -> LET ix == SliceIdx(e, 0, 0, 0, 0, 0) IN [k \in 1..Len(ix) |-> <<e[ix[k]][1], ix[k]>>]
     [] B.omode = "range"  -> LET ix == SliceIdx(e, 0, 1, B.lo, 1, B.hi) IN [k \in 1..Len(ix) |-> <<e[ix[k]][1], ix[k]>>]
     [] B.omode = "active" -> LET ix == SliceIdx(e, 0, 1, ActLo(B), 1, ActHi(B)) IN [k \in 1..Len(ix) |-> <<e[ix[k]][1], ix[k]>>]
     [] B.omode \in {"shape", "shaperef"} -> LET cs == FillCoords(0, B.shape, 1) IN [k \in 1..Len(cs) |-> <<cs[k], 0>>]
